@@ -191,6 +191,9 @@ func vpSameObject(a, b any) bool                        { return a == b }
 // vpClock: the k-th free duration returned by the engine's clock stub (engine only).
 func vpClock(name string, k int) int64 { return 0 }
 
+// vpJSONAppendString: engine only (runs encoding/json's unexported escaping loop).
+func vpJSONAppendString(dst []byte, s string, escapeHTML bool) []byte { panic("engine only") }
+
 var vpHashMemo = map[string]uint64{}
 
 func vpHash64(tag string, parts ...string) uint64 {
